@@ -14,6 +14,9 @@ CONSTANTS
   Fine = FALSE
   CheckRotTo = TRUE
   CommitAfterSync = TRUE
+  MaxTears = 0
+  TornMode = "refuse"
+  Asaps = {TRUE, FALSE}
 VIEW View
 ACTION_CONSTRAINT Export
 CHECK_DEADLOCK FALSE
